@@ -44,21 +44,30 @@ def filter_cond[**ParamType, RetType](
         ValueError: If the non-array leaves of the outputs of `true_fun` and
             `false_fun` are not identical.
     """
-    true_result = true_fun(*args, **kwargs)
-    false_result = false_fun(*args, **kwargs)
+    # Only the non-array leaves are needed outside of the conditional; get them by
+    # abstract evaluation so that neither branch is executed unconditionally (a
+    # branch may contain side effects such as `io_callback`s).
+    true_shape = eqx.filter_eval_shape(true_fun, *args, **kwargs)
+    false_shape = eqx.filter_eval_shape(false_fun, *args, **kwargs)
 
-    result_arrays, result_static = eqx.partition(
-        (true_result, false_result), eqx.is_array
-    )
+    def _is_array(x: Any) -> bool:
+        return eqx.is_array(x) or isinstance(x, jax.ShapeDtypeStruct)
 
-    if not eqx.tree_equal(result_static[0], result_static[1]):
+    _, true_static = eqx.partition(true_shape, _is_array)
+    _, false_static = eqx.partition(false_shape, _is_array)
+
+    if not eqx.tree_equal(true_static, false_static):
         raise ValueError(
             "Non-array leaves of true_fun and false_fun outputs must be identical."
-            f"Got\n{result_static[0]}\nand\n{result_static[1]}"
+            f"Got\n{true_static}\nand\n{false_static}"
         )
 
-    return_result = lax.cond(pred, lambda: result_arrays[0], lambda: result_arrays[1])
-    return eqx.combine(return_result, result_static[0])
+    return_result = lax.cond(
+        pred,
+        lambda: eqx.filter(true_fun(*args, **kwargs), eqx.is_array),
+        lambda: eqx.filter(false_fun(*args, **kwargs), eqx.is_array),
+    )
+    return eqx.combine(return_result, true_static)
 
 
 def filter_scan[Carry, X, Y](
